@@ -135,12 +135,21 @@ class Gen:
             return self.call(depth)
         if r < 0.9:
             return self.new(depth)
-        # parenthesised
+        # parenthesised (never a lone identifier: `(a) + b` is read as a cast of +b by tree-sitter-java)
         s = self.begin()
         e.w('('); e.tight()
-        self.expr(depth + 1)
+        self.paren_inner(depth + 1)
         e.tight(); e.w(')')
         return self.src_between(s[0], e.n), 99
+
+    def paren_inner(self, depth):
+        if depth < 3 and self.rng.random() < 0.6:
+            return self.binary(depth)
+        if self.rng.random() < 0.5:
+            return self.call(depth)
+        t = self.literal()
+        self.e.w(t)
+        return t, 99
 
     def operand(self, depth, prec, right):
         """operand of a binary operator with precedence prec; parenthesise when needed"""
@@ -159,7 +168,7 @@ class Gen:
         elif r < 0.9:
             self.call(depth + 1)
         else:
-            e.w('('); self.expr(depth + 1); e.w(')')
+            e.w('('); self.paren_inner(depth + 1); e.w(')')
         return self.src_between(s[0], e.n)
 
     def binary(self, depth, min_prec=1):
